@@ -126,6 +126,10 @@ fn call_sites(repo: &PathBuf) -> Result<(Vec<(String, bool)>, Vec<(String, bool)
         let file = syn::parse_file(&src).map_err(|e| format!("{rel}: {e}"))?;
         let mut fns = AllFns { v: vec![] };
         fns.visit_file(&file);
+        // does ANY function of this file call `.verify()`? (a `.merge(` in a function without a `verify` of its own is
+        // read as "unverified" only when the whole file never verifies: with the verification extracted into a helper the
+        // shape is unknown and refused, not guessed — false alarm found by the benign patch R6-p2)
+        let file_has_verify = fns.v.iter().any(|(_, b)| calls_in_block(b).methods.iter().any(|m| m == "verify"));
         for (name, body) in fns.v {
             let c = calls_in_block(body);
             let t = body.to_token_stream().to_string().replace(' ', "");
@@ -146,6 +150,9 @@ fn call_sites(repo: &PathBuf) -> Result<(Vec<(String, bool)>, Vec<(String, bool)
                         return Err(format!("{site}: `.merge(` next to a `verify()` match, but not the recognised collect-verified-then-fold shape"));
                     }
                 } else if !c.methods.iter().any(|m| m == "verify") {
+                    if file_has_verify {
+                        return Err(format!("{site}: `.merge(` in a function without `.verify()` while another function of the file verifies: cannot tell whether what is merged was verified"));
+                    }
                     false
                 } else {
                     return Err(format!("{site}: `.merge(` and `.verify()` in one function, but not the recognised collect-verified-then-fold shape"));
